@@ -209,6 +209,9 @@ class Builder:
             return eng.make_leaf(set(tags), payload, name=name, min_rows=mn, max_rows=mx)
         if self.counting:
             payload = CountingRows(rows, name, self.access_log)
+        elif spec.get("mapping_key"):
+            key = tuple(T(c) for c in spec["mapping_key"])
+            payload = iteration.RowMapping(key, {tuple(r[k] for k in key): r for r in rows})
         else:
             payload = iteration.RowSequence(rows)
         self.leaf_payloads[name] = payload
